@@ -761,15 +761,18 @@ func (m *Mint) GetMeltQuoteState(ctx context.Context, quoteId string) (storage.M
 			m.logInfof("payment %v failed with error: %v. Setting melt quote '%v' to unpaid and removing proofs from pending",
 				meltQuote.PaymentHash, paymentStatus.PaymentFailureReason, meltQuote.Id)
 
+			// remove the pending proofs before the quote is set to unpaid. Once it is
+			// unpaid, a new melt request for this quote can add its own pending
+			// proofs which must not be removed here.
+			_, err = m.removePendingProofsForQuote(meltQuote.Id)
+			if err != nil {
+				errmsg := fmt.Sprintf("error removing pending proofs for quote: %v", err)
+				return storage.MeltQuote{}, cashu.BuildCashuError(errmsg, cashu.DBErrCode)
+			}
 			meltQuote.State = nut05.Unpaid
 			err = m.db.UpdateMeltQuote(meltQuote.Id, "", meltQuote.State)
 			if err != nil {
 				errmsg := fmt.Sprintf("error updating melt quote state: %v", err)
-				return storage.MeltQuote{}, cashu.BuildCashuError(errmsg, cashu.DBErrCode)
-			}
-			_, err = m.removePendingProofsForQuote(meltQuote.Id)
-			if err != nil {
-				errmsg := fmt.Sprintf("error removing pending proofs for quote: %v", err)
 				return storage.MeltQuote{}, cashu.BuildCashuError(errmsg, cashu.DBErrCode)
 			}
 		}
